@@ -5,7 +5,7 @@ import SaModel.Read.ToD
 namespace Driver
 open Lean SaModel SaModel.Read
 
-def intTyOfStr : String → Option IntTy
+def readIntTyOfStr : String → Option IntTy
   | "i8" => some .i8 | "i16" => some .i16 | "i32" => some .i32 | "i64" => some .i64
   | "u8" => some .u8 | "u16" => some .u16 | "u32" => some .u32 | "u64" => some .u64
   | _ => none
@@ -18,7 +18,7 @@ partial def targetOfJson (j : Json) : Except String Target :=
     | "any" => pure .any | "ignored" => pure .ignored | "unit" => pure .unit | "unit_struct" => pure .unitStruct
     | "bool" => pure .bool | "f32" => pure .f32 | "f64" => pure .f64 | "char" => pure .char
     | "string" => pure .string | "str" => pure .str | "bytes" => pure .bytes | "byte_buf" => pure .byteBuf
-    | s => match intTyOfStr s with
+    | s => match readIntTyOfStr s with
       | some t => pure (.int t)
       | none => throw s!"unknown target {s}"
   | _ => do
@@ -114,6 +114,7 @@ def outcomeJson (r : R DVal) : Json :=
   match r with
   | .ok d => Json.mkObj [("ok", dvalToJson d)]
   | .error (.err m) => Json.mkObj [("err", m)]
+  | .error (.errCtx m _) => Json.mkObj [("err", m)]
   | .error (.panic m) => Json.mkObj [("panic", m)]
 
 /-- model outcome vs implementation outcome object: same class, and on ok the same value -/
@@ -123,6 +124,7 @@ def outcomeAgrees (r : R DVal) (impl : Json) : Bool :=
     | .ok j => dvalMatches d j
     | _ => false
   | .error (.err _) => implCls impl == "err"
+  | .error (.errCtx _ _) => implCls impl == "err"
   | .error (.panic _) => implCls impl == "panic"
 
 def arrKind : Arr → String
